@@ -167,4 +167,21 @@ theorem getD_char_int (t : List Nat) (h : ∀ d ∈ t, d < 10) (k : Nat) :
     simp only [Option.map_some, Option.getD_some]
     exact digitChar_eq_one d (h d (List.mem_of_getElem? hk))
 
+theorem bin2dec_bits (n x : Nat) (hx : x < 2 ^ n) : OQ.C09.bin2dec (OQ.C04.bits n x) = x := by
+  induction n generalizing x with
+  | zero => have : x = 0 := by simpa using hx
+            subst this; rfl
+  | succ n ih =>
+    rw [OQ.C04.bits_succ, OQ.C09.bin2dec_append, ih (x / 2) (by rw [Nat.pow_succ] at hx; omega)]
+    omega
+
+theorem dec2bin_eq_bits (x len : Nat) :
+    OQ.C09.dec2bin x len = OQ.C04.bits (max len (OQ.C09.bitLength x)) x := rfl
+
+/-- model level: `bin2dec` inverts `dec2bin` for EVERY number and length -/
+theorem bin2dec_dec2bin (x len : Nat) : OQ.C09.bin2dec (OQ.C09.dec2bin x len) = x := by
+  rw [dec2bin_eq_bits]
+  apply bin2dec_bits
+  exact lt_of_lt_of_le (lt_two_pow_bitLength x) (Nat.pow_le_pow_right (by decide) (le_max_right _ _))
+
 end OQ.Tr
